@@ -74,8 +74,11 @@ class BatchIterator:
         max_steps: int = None,
         shuffle: bool = False,
         combo_smooth: bool = False,
+        rng=None,
     ):
         self.args = args
+        # generator for the smoothing grid points; the global numpy generator when none is given
+        self.rng = rng
         self.n = len(self.args[0])
         self.batch_size = batch_size
 
@@ -98,7 +101,7 @@ class BatchIterator:
         else:
             self.ordering = torch.arange(self.n)
 
-        conc_combo_idxs = np.random.choice(
+        conc_combo_idxs = (self.rng if self.rng is not None else np.random).choice(
             int((self.n_grid) ** 2), size=int(2 * self.n), replace=True
         )
         self.conc_combo_idxs = (
@@ -113,7 +116,7 @@ class BatchIterator:
                 self.index = 0
                 if self.shuffle:
                     self.ordering = torch.randperm(self.n)
-                conc_combo_idxs = np.random.choice(
+                conc_combo_idxs = (self.rng if self.rng is not None else np.random).choice(
                     int((self.n_grid) ** 2), size=int(2 * self.n), replace=True
                 )
                 self.conc_combo_idxs = (
